@@ -16,6 +16,7 @@ from gv.astutil import walk_body
 from gv.cfg import cfg_of
 from gv.props import describe
 from gv.props.shared import branch_conditions
+from gv.props.shared import unfolded
 from gv.report import Ctx
 from gv.report import cname
 
@@ -43,6 +44,59 @@ GLOBAL_RNG_MODULES = ("numpy.random", "random")
 RNG_CTORS = {"RandomState", "default_rng", "Generator", "SeedSequence"}
 
 
+_SEED_KEYS = ("seed", "random_state")
+
+
+def _seed_in_options(f: ast.AST, call: ast.Call):
+    """The seed that reaches ``call(..., **options)`` through the local mapping ``options``: the value stored last
+    under the key "seed" / "random_state" (``options["seed"] = e``, or an item of the literal the local is defined
+    by), provided that this store happens on every path to the call and nothing edits the mapping in between."""
+    stars = [kw.value.id for kw in call.keywords if kw.arg is None and isinstance(kw.value, ast.Name)]
+    if not stars:
+        return None
+    cfg = cfg_of(f)
+    if not cfg.has(call):
+        return None
+    at = cfg.node_of(call)
+    for name in stars:
+        stores, edits = [], []
+        for s_ in stmts_of(f):
+            if isinstance(s_, ast.Assign) and len(s_.targets) == 1:
+                t = s_.targets[0]
+                if isinstance(t, ast.Subscript) and dotted(t.value) == name:
+                    edits.append(s_)
+                    if isinstance(t.slice, ast.Constant) and t.slice.value in _SEED_KEYS:
+                        stores.append((s_, s_.value))
+                    continue
+                if isinstance(t, ast.Name) and t.id == name:
+                    edits.append(s_)
+                    v = s_.value
+                    if isinstance(v, ast.Dict):
+                        items = [(k, x) for k, x in zip(v.keys, v.values)]
+                        for i, (k, x) in enumerate(items):
+                            if isinstance(k, ast.Constant) and k.value in _SEED_KEYS and all(k2 is not None for k2, _ in items[i + 1 :]):
+                                stores.append((s_, x))
+                    elif isinstance(v, ast.Call) and dotted(v.func) == "dict":
+                        for kw in v.keywords:
+                            if kw.arg in _SEED_KEYS:
+                                stores.append((s_, kw.value))
+                    continue
+            if any(isinstance(n_, ast.Name) and n_.id == name and not isinstance(n_.ctx, ast.Load) for n_ in ast.walk(s_)):
+                edits.append(s_)
+            elif any(isinstance(n_, ast.Subscript) and dotted(n_.value) == name and not isinstance(n_.ctx, ast.Load) for n_ in ast.walk(s_)):
+                edits.append(s_)
+            elif any(isinstance(n_, ast.Call) and isinstance(n_.func, ast.Attribute) and dotted(n_.func.value) == name and n_.func.attr in ("update", "pop", "clear", "setdefault", "popitem", "__setitem__", "__delitem__") for n_ in ast.walk(s_)):
+                edits.append(s_)
+        for st, value in stores:
+            sn = cfg.node_of(st)
+            if sn == at or not cfg.dominates(sn, at):
+                continue
+            if any(e_ is not st and cfg.node_of(e_) != at and cfg.reachable(sn, cfg.node_of(e_)) and cfg.reachable(cfg.node_of(e_), at) for e_ in edits):
+                continue
+            return value
+    return None
+
+
 def check_seeds(ctx: Ctx) -> None:
     base = ctx.index.cls(DOE, "BaseDOELibrary")
     impls = ctx.index.overriders(base, "_generate_unit_samples")
@@ -52,6 +106,7 @@ def check_seeds(ctx: Ctx) -> None:
         if cls == base:
             continue
         con = cname(cls.module.relpath, cls.qualname, "_generate_unit_samples")
+        params = [x.arg for x in f.args.posonlyargs + f.args.args + f.args.kwonlyargs]
         for c in walk_body(f):
             if not isinstance(c, ast.Call):
                 continue
@@ -65,18 +120,22 @@ def check_seeds(ctx: Ctx) -> None:
                 seed_expr = kwarg(c, "seed")
             elif kwarg(c, "random_state") is not None:
                 seed_expr = kwarg(c, "random_state")
+            else:
+                seed_expr = _seed_in_options(f, c)
             if seed_expr is None:
                 continue
-            n_seeded += 1
-            ok = isinstance(seed_expr, ast.Call) and norm_stmt(seed_expr.func) == "self._seeder.get_seed" and len(seed_expr.args) == 1
             if isinstance(seed_expr, ast.Call) and last_attr(seed_expr) in RNG_CTORS:
                 continue  # the inner constructor is checked on its own
+            n_seeded += 1
+            # the seed with the locals it reads replaced by their definitions (seed = get_seed(seed); SetSeed(seed))
+            alts = (unfolded(f, seed_expr) or [seed_expr]) if isinstance(seed_expr, ast.AST) else [seed_expr]
+            ok = all(isinstance(a_, ast.Call) and norm_stmt(a_.func) == "self._seeder.get_seed" and len(a_.args) == 1 and not a_.keywords for a_ in alts)
             ctx.ob("14.1-seeded", con, ok, f"`{norm_stmt(c, 60)}` creates a random source that is not seeded with self._seeder.get_seed(<user seed>): two runs with the same settings and seed differ, or the user's seed is ignored", node=c)
             if ok:
                 # the argument is the user's setting (a subscript of settings / a parameter named seed)
-                a = seed_expr.args[0]
-                ok2 = (isinstance(a, ast.Subscript) and dotted(a.value) == "settings") or (isinstance(a, ast.Name) and a.id in [x.arg for x in f.args.args + f.args.kwonlyargs])
-                ctx.ob("14.1-user-seed", con, ok2, "the seeder must be asked with the user's seed setting (None means: next default seed)", node=c, stmt=f"get_seed({norm_stmt(a)})")
+                args = [a_.args[0] for a_ in alts]
+                ok2 = all((isinstance(a, ast.Subscript) and dotted(a.value) == "settings") or (isinstance(a, ast.Name) and a.id in params) for a in args)
+                ctx.ob("14.1-user-seed", con, ok2, "the seeder must be asked with the user's seed setting (None means: next default seed)", node=c, stmt=f"get_seed({norm_stmt(seed_expr.args[0]) if isinstance(seed_expr, ast.Call) and seed_expr.args else ' | '.join(norm_stmt(a) for a in args)})")
     ctx.counts["14.1-seeded"] = max(ctx.counts.get("14.1-seeded", 0), n_seeded)
     ctx.floor("14.1-seeded", 3)
     # no unseeded global source under algos/doe
@@ -124,6 +183,32 @@ def check_seeds(ctx: Ctx) -> None:
     ctx.ob("14.1-seeder", con, len(inc) == 1 and isinstance(inc[0].op, ast.Add), "the default seed must change at every call (successive unseeded DOEs differ, runs are reproducible)", node=(inc or [g])[0], stmt="default seed incremented per call")
 
 
+def _name_of(f: ast.AST, e: ast.AST | None) -> str | None:
+    """The attribute chain ``e`` stands for (``problem.design_space``), read through the locals that merely name it
+    (``design_space = problem.design_space``); None when it is anything else (a call result is not an identity)."""
+    if e is None:
+        return None
+    alts = unfolded(f, e) or [e]
+    texts = {_chain(a_) for a_ in alts}
+    return next(iter(texts)) if len(texts) == 1 else None
+
+
+def _chain(e: ast.AST | None) -> str | None:
+    """``a.b.c`` for a chain of plain attribute reads, None for anything else."""
+    n = e
+    while isinstance(n, ast.Attribute):
+        n = n.value
+    return dotted(e) if isinstance(n, ast.Name) else None
+
+
+def _same_object(f: ast.AST, a: ast.AST, b: ast.AST) -> bool:
+    """Do ``a`` and ``b`` name the same object: the same name in the source, or the same attribute chain once the
+    locals that merely name it are read through."""
+    if _chain(a) is not None and _chain(a) == _chain(b):
+        return True
+    return _name_of(f, a) is not None and _name_of(f, a) == _name_of(f, b)
+
+
 def check_window(ctx: Ctx) -> None:
     for m in ("_pre_run", "compute_doe"):
         f = ctx.index.method(DOE, "BaseDOELibrary", m)
@@ -155,18 +240,29 @@ def check_window(ctx: Ctx) -> None:
 
         ok = cfg.escape_path(e_n, r_nodes | contradicted_branches(cfg, e_n)) is None
         ctx.ob("14.2-window", con, ok, "the normalisation of integer variables must be restored on every normal path after the mapping", node=rs[0], stmt="reset post-dominates the mapping")
-        ok = all(len(r_.args) == 2 and dotted(r_.args[1]) == flag and dotted(r_.args[0]) == dotted(en[0].value.args[0]) for r_ in rs)
+        ok = all(len(r_.args) == 2 and dotted(r_.args[1]) == flag and bool(en[0].value.args) and _same_object(f, r_.args[0], en[0].value.args[0]) for r_ in rs)
         ctx.ob("14.2-window", con, ok, "the reset must receive the flag returned by the enable for the same design space (otherwise a space whose integers were already normalised is switched off)", node=rs[0], stmt="reset(design_space, <flag returned by enable>)")
         chk = [c for c in walk_body(f) if isinstance(c, ast.Call) and last_attr(c).endswith("__check_unnormalization_capability")]
         gen = rules.self_calls(f, "_generate_unit_samples")
         ok = len(chk) == 1 and len(gen) == 1 and cfg.reachable(cfg.node_of(chk[0]), cfg.node_of(gen[0])) and not cfg.reachable(cfg.node_of(gen[0]), cfg.node_of(chk[0]))
         ctx.ob("14.3-bounded", con, ok, "unbounded components must be refused before samples are generated", node=(chk or [f])[0])
     e = ctx.index.method(DOE, "BaseDOELibrary", "__enable_integer_variables_normalization")
+    # decided by running the method on the two states of the switch: it returns True and leaves the switch on when
+    # the switch was off; it returns False and leaves the switch on when it was on
+    from gv.ordering import Unsupported
+
+    e_params = [a_.arg for a_ in e.args.args if a_.arg not in ("self", "cls")]
+    ctx.need(len(e_params) == 1, "__enable_integer_variables_normalization(design_space) not recognised")
+    switch = f"{e_params[0]}.enable_integer_variables_normalization"
+    ok = True
+    for was_on in (0, 1):
+        env, loc, path = {"on": was_on}, {}, []
+        try:
+            done = _run_case(e.body, loc, {switch: "on"}, env, path, state=True)
+            ok = ok and done and path[-1].value is not None and _truth_of(path[-1].value, loc, {switch: "on"}, env) == (not was_on) and env["on"] == 1
+        except Unsupported:
+            ok = False
     rets = [s for s in stmts_of(e) if isinstance(s, ast.Return)]
-    d = [s for s in stmts_of(e) if isinstance(s, ast.Assign) and dotted(s.targets[0]) == dotted(rets[0].value)] if rets else []
-    ok = len(rets) == 1 and len(d) == 1 and norm_stmt(d[0].value) == "not design_space.enable_integer_variables_normalization"
-    sets = [s for s in stmts_of(e) if isinstance(s, ast.Assign) and (dotted(s.targets[0]) or "").endswith("enable_integer_variables_normalization")]
-    ok = ok and len(sets) == 1 and getattr(sets[0].value, "value", None) is True
     ctx.ob("14.2-window", cname(DOE, "BaseDOELibrary", "__enable_integer_variables_normalization"), ok, "enable returns whether it had to switch the normalisation on", node=(rets or [e])[0])
     r = ctx.index.method(DOE, "BaseDOELibrary", "__reset_integer_variables_normalization")
     sets = [s for s in stmts_of(r) if isinstance(s, ast.Assign) and (dotted(s.targets[0]) or "").endswith("enable_integer_variables_normalization")]
@@ -179,19 +275,23 @@ def check_image(ctx: Ctx) -> None:
     f = ctx.index.method(DOE, "BaseDOELibrary", "_pre_run")
     con = cname(DOE, "BaseDOELibrary", "_pre_run")
     us = rules.assigns_to_self(f, "unit_samples")
-    ok = len(us) == 1 and isinstance(us[0].value, ast.Call) and last_attr(us[0].value) == "_generate_unit_samples" and dotted(us[0].value.args[0]) == "design_space"
+    ok = len(us) == 1 and isinstance(us[0].value, ast.Call) and last_attr(us[0].value) == "_generate_unit_samples" and bool(us[0].value.args) and _name_of(f, us[0].value.args[0]) == "problem.design_space"
     ctx.ob("14.3-image", con, ok, "the unit samples are those generated for the problem's design space", node=(us or [f])[0])
     sm = rules.assigns_to_self(f, "samples")
     ok = len(sm) == 1 and isinstance(sm[0].value, ast.Call) and last_attr(sm[0].value).endswith("__convert_unit_samples_to_samples")
     cfg = cfg_of(f)
     ok = ok and us and cfg.reachable(cfg.node_of(us[0]), cfg.node_of(sm[0])) and not cfg.reachable(cfg.node_of(sm[0]), cfg.node_of(us[0]))
     ctx.ob("14.3-image", con, bool(ok), "the physical samples must be computed from the unit samples just generated", node=(sm or [f])[0])
+    # every design space handed over by _pre_run (to the generation, the enable, the bounds check, the reset) is the
+    # problem's: the local that names it, if any, is bound once to problem.design_space
     ds = [s for s in stmts_of(f) if isinstance(s, ast.Assign) and dotted(s.targets[0]) == "design_space"]
-    ctx.ob("14.3-image", con, len(ds) == 1 and dotted(ds[0].value) == "problem.design_space", "the design space sampled is the problem's", node=(ds or [f])[0])
+    handed = [c_.args[0] for c_ in walk_body(f) if isinstance(c_, ast.Call) and c_.args and (last_attr(c_) == "_generate_unit_samples" or last_attr(c_).endswith(("__enable_integer_variables_normalization", "__reset_integer_variables_normalization", "__check_unnormalization_capability")))]
+    ok = len(ds) <= 1 and all(dotted(s.value) == "problem.design_space" for s in ds) and len(handed) >= 4 and all(_name_of(f, a_) == "problem.design_space" for a_ in handed)
+    ctx.ob("14.3-image", con, ok, "the design space sampled is the problem's", node=(ds or [f])[0])
     c = ctx.index.method(DOE, "BaseDOELibrary", "__convert_unit_samples_to_samples")
     conc = cname(DOE, "BaseDOELibrary", "__convert_unit_samples_to_samples")
     unt = [x for x in walk_body(c) if isinstance(x, ast.Call) and last_attr(x) == "untransform_vect"]
-    ok = len(unt) == 1 and dotted(unt[0].args[0]) == "self.unit_samples" and (dotted(unt[0].func.value) or "") in ("design_space", "problem.design_space")
+    ok = len(unt) == 1 and bool(unt[0].args) and _name_of(c, unt[0].args[0]) == "self.unit_samples" and _name_of(c, unt[0].func.value) == "problem.design_space"
     ctx.ob("14.3-image", conc, ok, "samples = design_space.untransform_vect(self.unit_samples)", node=(unt or [c])[0])
     rets = [s for s in stmts_of(c) if isinstance(s, ast.Return)]
     sdef = [s for s in stmts_of(c) if isinstance(s, ast.Assign) and rets and dotted(s.targets[0]) == dotted(rets[0].value)]
@@ -204,7 +304,7 @@ def check_image(ctx: Ctx) -> None:
     ctx.need(len(gen) == 1, "compute_doe: unit sample generation not found")
     uv = dotted(gen[0].targets[0])
     unt = [x for x in walk_body(g) if isinstance(x, ast.Call) and last_attr(x) == "untransform_vect"]
-    ok = len(unt) == 1 and dotted(unt[0].args[0]) == uv and dotted(unt[0].func.value) == dotted(gen[0].value.args[0])
+    ok = len(unt) == 1 and bool(unt[0].args) and dotted(unt[0].args[0]) == uv and bool(gen[0].value.args) and dotted(unt[0].func.value) is not None and dotted(unt[0].func.value) == dotted(gen[0].value.args[0])
     ctx.ob("14.3-image", cong, ok, "compute_doe must map the unit samples it has just generated with the same design space", node=(unt or [g])[0])
     rets = [s for s in stmts_of(g) if isinstance(s, ast.Return)]
     unit_ret = [r for r in rets if dotted(r.value) == uv]
@@ -237,36 +337,107 @@ def check_stratified_levels(ctx: Ctx) -> None:
             continue
         params = [a.arg for a in f.args.args if a.arg not in ("self", "cls")]
         env = {p_: sp.Symbol(p_, positive=True) for p_ in params}
-        lv = [s_ for s_ in stmts_of(f) if isinstance(s_, ast.Assign) and dotted(s_.targets[0]) == "n_levels"]
         fin = [s_ for s_ in stmts_of(f) if isinstance(s_, ast.Assign) and dotted(s_.targets[0]) == "final_n_samples"]
         rets = [s_ for s_ in stmts_of(f) if isinstance(s_, ast.Return) and s_.value is not None]
+        # the number of levels is the local the size of the design is computed from, read through its definitions
+        # (n_levels = <quotient>; n_levels = int(n_levels) is the same number as int(<quotient>))
+        reads = [n_ for n_ in ast.walk(fin[0].value) if isinstance(n_, ast.Name) and n_.id not in params] if len(fin) == 1 else []
+        lname = reads[0].id if len({n_.id for n_ in reads}) == 1 else None
+        lv = [s_ for s_ in stmts_of(f) if isinstance(s_, ast.Assign) and lname is not None and dotted(s_.targets[0]) == lname]
+        levels = (unfolded(f, reads[0]) or []) if lname is not None else []
         q = None
-        if len(lv) == 1:
-            v = lv[0].value
-            if isinstance(v, ast.Call) and dotted(v.func) in ("int", "floor") and len(v.args) == 1:
+        if len(levels) == 1:
+            v = levels[0]
+            if isinstance(v, ast.Call) and dotted(v.func) in ("int", "floor", "math.floor") and len(v.args) == 1 and not v.keywords:
                 q = symexpr.to_term(v.args[0], env)
             elif isinstance(v, ast.BinOp) and isinstance(v.op, ast.FloorDiv):
                 a, b = symexpr.to_term(v.left, env), symexpr.to_term(v.right, env)
                 q = a / b if a is not None and b is not None else None
-        size = symexpr.to_term(fin[0].value, {**env, "n_levels": sp.Symbol("n_levels", positive=True)}) if len(fin) == 1 else None
-        if q is None and len(lv) == 1 and size is not None and "n_samples" in env:
+        size = symexpr.to_term(fin[0].value, {**env, lname: sp.Symbol("n_levels", positive=True)}) if lname is not None else None
+        if q is None and len(levels) == 1 and lv and size is not None and "n_samples" in env:
             # the number of levels is not a floor: round() / ceil() of the quotient can give a design LARGER than requested
-            ctx.ob("14.5-levels", con, False, f"the number of levels `{norm_stmt(lv[0].value, 60)}` must be the floor of the quotient (int(...) or //): rounded to nearest or up, the design has more points than n_samples", node=lv[0], stmt="n_levels is a floor")
+            ctx.ob("14.5-levels", con, False, f"the number of levels `{norm_stmt(levels[0], 60)}` must be the floor of the quotient (int(...) or //): rounded to nearest or up, the design has more points than n_samples", node=lv[-1], stmt="n_levels is a floor")
             continue
-        if q is None or size is None or "n_samples" not in env:
+        if q is None or size is None or not lv or "n_samples" not in env:
             raise AnalysisError(f"{con}: n_levels = int(<quotient>) / final_n_samples = <affine in n_levels> not recognised")
         L = sp.Symbol("n_levels", positive=True)
         c1 = sp.simplify(sp.diff(size, L))
         slack = sp.simplify(env["n_samples"] - size.subs(L, q))
         n += 1
         ok = c1.free_symbols <= set(env.values()) and bool(c1.is_positive) and slack.is_number and slack >= 0
-        ctx.ob("14.5-levels", con, bool(ok), f"with n_levels = floor({q}) the design has {size} = at most {sp.simplify(size.subs(L, q))} points, which exceeds the requested n_samples by {sp.simplify(-slack)} when the quotient is an integer: more samples than requested", node=lv[0], stmt="size of the stratified design <= n_samples")
-        ok = len(rets) == 1 and dotted(rets[0].value) == "n_levels"
+        ctx.ob("14.5-levels", con, bool(ok), f"with n_levels = floor({q}) the design has {size} = at most {sp.simplify(size.subs(L, q))} points, which exceeds the requested n_samples by {sp.simplify(-slack)} when the quotient is an integer: more samples than requested", node=lv[-1], stmt="size of the stratified design <= n_samples")
+        ok = len(rets) == 1 and (dotted(rets[0].value) == lname or [ast.unparse(x_) for x_ in unfolded(f, rets[0].value) or []] == [ast.unparse(levels[0])])
         ctx.ob("14.5-levels", con, ok, "the computed number of levels is what is returned", node=(rets or [f])[0])
     ctx.floor("14.5-levels", 6)
 
 
 _OTS = "algos/doe/openturns/_algos/ot_sobol_doe.py"
+
+
+def _resolve(e: ast.AST, loc: dict, atoms: dict, env: dict) -> ast.AST:
+    """``e`` with the locals of ``loc`` replaced by their value and every conditional expression replaced by the
+    alternative selected under ``env`` (gv.ordering.Unsupported when a test is not a comparison of the atoms)."""
+    import copy
+
+    from gv.ordering import executed
+
+    class R(ast.NodeTransformer):
+        def visit_Name(self, n):  # noqa: N802
+            if isinstance(n.ctx, ast.Load) and n.id in loc:
+                return copy.deepcopy(loc[n.id])
+            return n
+
+        def visit_IfExp(self, n):  # noqa: N802
+            test = self.visit(n.test)
+            probe = ast.If(test=test, body=[ast.Expr(value=ast.Constant(value=True))], orelse=[ast.Expr(value=ast.Constant(value=False))])
+            return self.visit(n.body if executed([probe], atoms, env)[0].value.value else n.orelse)
+
+    return R().visit(copy.deepcopy(e))
+
+
+def _truth_of(e: ast.AST, loc: dict, atoms: dict, env: dict) -> bool:
+    """Truth value of a test on the atoms under ``env`` (gv.ordering.Unsupported when it is something else)."""
+    return _resolve(ast.IfExp(test=e, body=ast.Constant(value=True), orelse=ast.Constant(value=False)), loc, atoms, env).value
+
+
+def _run_case(stmts, loc: dict, atoms: dict, env: dict, seen: list, frozen: str | None = None, state: bool = False) -> bool:
+    """Run straight-line code whose tests compare the atoms: ``loc`` maps each local to its value in terms of the
+    parameters, ``seen`` collects the simple statements executed.  True when a return was reached.
+
+    With ``state`` an atom may be assigned a boolean constant (``env`` is updated), and a local that holds a test on
+    the atoms keeps the truth value the test had when the local was bound."""
+    from gv.ordering import Unsupported
+
+    for st in stmts:
+        if isinstance(st, ast.If):
+            if _run_case(st.body if _truth_of(st.test, loc, atoms, env) else st.orelse, loc, atoms, env, seen, frozen, state):
+                return True
+            continue
+        if isinstance(st, (ast.For, ast.While, ast.Try, ast.With, ast.Match)):
+            raise Unsupported(f"statement `{ast.unparse(st)[:40]}`")
+        seen.append(st)
+        if isinstance(st, ast.Return):
+            return True
+        if isinstance(st, ast.Assign) and len(st.targets) == 1 and isinstance(st.targets[0], ast.Name):
+            loc[st.targets[0].id] = _resolve(st.value, loc, atoms, env)
+            if state:
+                try:
+                    loc[st.targets[0].id] = ast.Constant(value=_truth_of(st.value, loc, atoms, env))
+                except Unsupported:
+                    pass
+        elif isinstance(st, ast.AugAssign) and isinstance(st.target, ast.Name):
+            loc[st.target.id] = _resolve(ast.BinOp(left=ast.Name(id=st.target.id, ctx=ast.Load()), op=st.op, right=st.value), loc, atoms, env)
+        elif state and isinstance(st, ast.Assign) and len(st.targets) == 1 and ast.unparse(st.targets[0]) in atoms:
+            v = _resolve(st.value, loc, atoms, env)
+            if not (isinstance(v, ast.Constant) and isinstance(v.value, bool)):
+                raise Unsupported(f"statement `{ast.unparse(st)[:40]}`")
+            env[atoms[ast.unparse(st.targets[0])]] = int(v.value)
+        elif isinstance(st, (ast.Assign, ast.AugAssign, ast.Delete)):
+            raise Unsupported(f"statement `{ast.unparse(st)[:40]}`")
+        elif frozen is not None and any(isinstance(c_, ast.Call) and isinstance(c_.func, ast.Attribute) and dotted(c_.func.value) == frozen and c_.func.attr not in ("get", "keys", "values", "items", "copy") for c_ in ast.walk(st)):
+            # a method of the settings mapping called for its effect (pop, update, ...) may change the option
+            raise Unsupported(f"statement `{ast.unparse(st)[:40]}`")
+    return False
 
 
 def check_sobol_count(ctx: Ctx) -> None:
@@ -275,51 +446,63 @@ def check_sobol_count(ctx: Ctx) -> None:
     SobolIndicesExperiment(N) has N(2+d) points when the second-order indices are not computed or d == 2, and N(2+2d)
     otherwise (OpenTURNS documentation, quoted in the source): N must be floor(n_samples / block) for the block of the
     case at hand.  The tests compare `dimension` with constants only, so each (option, ordering of d and 2) selects a
-    path; the divisor on that path is compared with the block size with sympy.
+    path; on that path the locals are replaced by their values (conditional expressions by the alternative taken), and
+    the divisor of the size given to the experiment is compared with the block size with sympy.
     """
     import sympy
 
     from gv.ordering import Unsupported
-    from gv.ordering import executed
 
     f = ctx.index.method(_OTS, "OTSobolDOE", "generate_samples")
     con = cname(_OTS, "OTSobolDOE", "generate_samples")
     exp = [c for c in walk_body(f) if isinstance(c, ast.Call) and last_attr(c) == "SobolIndicesExperiment"]
-    ctx.need(len(exp) == 1 and len(exp[0].args) >= 2 and isinstance(exp[0].args[1], ast.Name), "OTSobolDOE: SobolIndicesExperiment(distribution, size, ...) not found")
-    size = exp[0].args[1].id
+    ctx.need(len(exp) == 1 and len(exp[0].args) + len(exp[0].keywords) >= 2, "OTSobolDOE: SobolIndicesExperiment(distribution, size, ...) not found")
+    size_arg = kwarg(exp[0], "size") or (exp[0].args[1] if len(exp[0].args) >= 2 else None)
+    flag_arg = kwarg(exp[0], "computeSecondOrder") or (exp[0].args[2] if len(exp[0].args) >= 3 else None)
+    ctx.need(size_arg is not None, "OTSobolDOE: SobolIndicesExperiment(distribution, size, ...) not found")
     n_par, d_par = f.args.args[1].arg, f.args.args[2].arg
-    flag_defs = [s_ for s_ in stmts_of(f) if isinstance(s_, ast.Assign) and isinstance(s_.targets[0], ast.Name) and "eval_second_order" in norm_stmt(s_.value)]
-    ctx.need(len(flag_defs) == 1, "OTSobolDOE: the eval_second_order option was not found")
-    flag = flag_defs[0].targets[0].id
-    ctx.ob("14.6-sobol-count", con, len(exp[0].args) >= 3 and dotted(exp[0].args[2]) == flag, "the experiment must be built with the same eval_second_order option as the one the block size is computed from", node=exp[0], stmt="SobolIndicesExperiment(..., eval_second_order)")
-    atoms = {flag: "flag", d_par: "d"}
+    ctx.need(f.args.kwarg is not None, "OTSobolDOE: the eval_second_order option was not found")
+    opts = f.args.kwarg.arg
+    option = f"{opts}['eval_second_order']"
+    ctx.need(any(isinstance(n_, ast.Subscript) and ast.unparse(n_) == option for n_ in walk_body(f)), "OTSobolDOE: the eval_second_order option was not found")
+    atoms = {option: "flag", d_par: "d"}
+    first = True
     for second in (False, True):
         for d, dlabel in ((1, "d < 2"), (2, "d = 2"), (3, "d > 2"), (6, "d > 2")):
             label = f"eval_second_order={second}, {dlabel}"
+            env = {"flag": 1 if second else 0, "d": d}
+            loc, path = {}, []
             try:
-                path = executed(f.body, atoms, {"flag": 1 if second else 0, "d": d})
+                _run_case(f.body, loc, atoms, env, path, opts)
+                in_path = [s_ for s_ in path if any(n_ is exp[0] for n_ in ast.walk(s_))]
+                v = _resolve(size_arg, loc, atoms, env) if in_path else None
+                fl = _resolve(flag_arg, loc, atoms, env) if in_path and flag_arg is not None else None
             except Unsupported as e:
                 ctx.ob("14.6-sobol-count", con, False, f"the block-size selection is no longer a comparison of the dimension with constants ({e})", node=f, stmt=label)
                 continue
-            defs = [s_ for s_ in path if isinstance(s_, ast.Assign) and dotted(s_.targets[0]) == size]
-            if not defs:
+            if first:
+                first = False
+                if isinstance(fl, ast.Call) and dotted(fl.func) == "bool" and len(fl.args) == 1 and not fl.keywords:
+                    fl = fl.args[0]
+                ctx.ob("14.6-sobol-count", con, fl is not None and ast.unparse(fl) == option, "the experiment must be built with the same eval_second_order option as the one the block size is computed from", node=exp[0], stmt="SobolIndicesExperiment(..., eval_second_order)")
+            if v is None:
                 ctx.ob("14.6-sobol-count", con, False, f"no sub-sample size is computed for {label}", node=f, stmt=label)
                 continue
-            v = defs[-1].value
+            where = next((s_ for s_ in reversed(path) if isinstance(s_, ast.Assign) and isinstance(size_arg, ast.Name) and dotted(s_.targets[0]) == size_arg.id), in_path[0])
             quot = None
-            if isinstance(v, ast.Call) and dotted(v.func) == "int" and len(v.args) == 1 and isinstance(v.args[0], ast.BinOp) and isinstance(v.args[0].op, (ast.Div, ast.FloorDiv)):
+            if isinstance(v, ast.Call) and dotted(v.func) in ("int", "floor", "math.floor") and len(v.args) == 1 and not v.keywords and isinstance(v.args[0], ast.BinOp) and isinstance(v.args[0].op, (ast.Div, ast.FloorDiv)):
                 quot = v.args[0]
             elif isinstance(v, ast.BinOp) and isinstance(v.op, ast.FloorDiv):
                 quot = v
             if quot is None or dotted(quot.left) != n_par:
-                ctx.ob("14.6-sobol-count", con, False, f"for {label} the sub-sample size `{norm_stmt(v, 60)}` is not floor(n_samples / block): rounding to nearest (or up) returns more samples than requested", node=defs[-1], stmt=label)
+                ctx.ob("14.6-sobol-count", con, False, f"for {label} the sub-sample size `{norm_stmt(v, 60)}` is not floor(n_samples / block): rounding to nearest (or up) returns more samples than requested", node=where, stmt=label)
                 continue
             try:
                 got = sympy.sympify(norm_stmt(quot.right), locals={d_par: sympy.Integer(d)})
             except Exception:  # noqa: BLE001
                 got = None
             block = 2 + d if (not second or d == 2) else 2 + 2 * d
-            ctx.ob("14.6-sobol-count", con, got == block, f"for {label} (d={d}) the design has {block} points per unit of sub-sample size but n_samples is divided by {got}: the design has more points than requested", node=defs[-1], stmt=label)
+            ctx.ob("14.6-sobol-count", con, got == block, f"for {label} (d={d}) the design has {block} points per unit of sub-sample size but n_samples is divided by {got}: the design has more points than requested", node=where, stmt=label)
     ctx.floor("14.6-sobol-count", 7)
 
 
@@ -336,21 +519,53 @@ def check_custom_order(ctx: Ctx) -> None:
     con = cname(_CD, "CustomDOE", "_generate_unit_samples")
     ds = f.args.args[1].arg
     cfg = cfg_of(f)
-    n = 0
+    ret = [r for r in stmts_of(f) if isinstance(r, ast.Return) and r.value is not None]
+    # the array that is mapped to the unit hypercube: transform_vect(<array>) or apply_along_axis(transform_vect, arr=<array>)
+    mapped = None
+    if len(ret) == 1:
+        for c_ in ast.walk(ret[0].value):
+            if not isinstance(c_, ast.Call):
+                continue
+            if isinstance(c_.func, ast.Attribute) and c_.func.attr == "transform_vect" and dotted(c_.func.value) == ds and c_.args:
+                mapped = c_.args[0]
+            elif any(isinstance(a_, ast.Attribute) and a_.attr == "transform_vect" and dotted(a_.value) == ds for a_ in c_.args):
+                mapped = kwarg(c_, "arr") or (c_.args[2] if len(c_.args) >= 3 else None)
+    array_names = {"samples"} | ({mapped.id} if isinstance(mapped, ast.Name) else set())
+
+    def polarity(t, v):
+        e = cfg.ast[t].test
+        while isinstance(e, ast.UnaryOp) and isinstance(e.op, ast.Not):
+            e, v = e.operand, not v
+        return e, v
+
+    def is_instance_of(e, what):
+        return isinstance(e, ast.Call) and dotted(e.func) == "isinstance" and len(e.args) == 2 and what in norm_stmt(e.args[1])
+
     for s_ in stmts_of(f):
-        if not (isinstance(s_, ast.Assign) and dotted(s_.targets[0]) == "samples"):
+        if not (isinstance(s_, ast.Assign) and dotted(s_.targets[0]) in array_names):
             continue
-        conds = [norm_stmt(cfg.ast[t].test) + ("" if v else " [false]") for t, v in branch_conditions(cfg, cfg.node_of(s_)) if cfg.kind[t] == "test"]
-        by_name = any("Mapping" in c_ and "[false]" not in c_ for c_ in conds) or any("ndarray" in c_ and "isinstance" in c_ for c_ in conds)
+        conds = [polarity(t, v) for t, v in branch_conditions(cfg, cfg.node_of(s_)) if cfg.kind[t] == "test"]
+        # given by name: a mapping, or neither a mapping nor an array (a sequence of mappings)
+        by_name = any(is_instance_of(e, "Mapping") and v for e, v in conds) or any(is_instance_of(e, "ndarray") and not v for e, v in conds)
         if not by_name:
             continue
-        n += 1
-        conv = [c_ for c_ in ast.walk(s_.value) if isinstance(c_, ast.Call) and last_attr(c_) == "convert_dict_to_array" and dotted(c_.func.value) == ds]
-        raw = [c_ for c_ in ast.walk(s_.value) if isinstance(c_, ast.Call) and last_attr(c_) in ("values", "items")]
-        ctx.ob("14.7-variable-order", con, bool(conv) and not raw, "samples keyed by variable name must be converted with design_space.convert_dict_to_array: stacking the dictionary values follows the key order of each dictionary, not the variable order of the design space (components land in the wrong columns, outside their bounds)", node=s_)
+        values = unfolded(f, s_.value) or [s_.value]
+        ok = True
+        for val in values:
+            conv = [
+                c_
+                for c_ in ast.walk(val)
+                if isinstance(c_, ast.Call)
+                and (
+                    (isinstance(c_.func, ast.Attribute) and c_.func.attr == "convert_dict_to_array" and dotted(c_.func.value) == ds)
+                    or (dotted(c_.func) == "map" and c_.args and isinstance(c_.args[0], ast.Attribute) and c_.args[0].attr == "convert_dict_to_array" and dotted(c_.args[0].value) == ds)
+                )
+            ]
+            raw = [c_ for c_ in ast.walk(val) if isinstance(c_, ast.Call) and last_attr(c_) in ("values", "items")]
+            ok = ok and bool(conv) and not raw
+        ctx.ob("14.7-variable-order", con, ok, "samples keyed by variable name must be converted with design_space.convert_dict_to_array: stacking the dictionary values follows the key order of each dictionary, not the variable order of the design space (components land in the wrong columns, outside their bounds)", node=s_)
     ctx.floor("14.7-variable-order", 2)
-    ret = [r for r in stmts_of(f) if isinstance(r, ast.Return) and r.value is not None]
-    ok = len(ret) == 1 and any(isinstance(c_, ast.Attribute) and c_.attr == "transform_vect" and dotted(c_.value) == ds for c_ in ast.walk(ret[0].value))
+    ok = len(ret) == 1 and mapped is not None
     ctx.ob("14.7-variable-order", con, ok, "the user's physical samples are mapped to the unit hypercube with the design space's own transform_vect", node=(ret or [f])[0], stmt="unit samples = transform_vect(samples)")
 
 
